@@ -90,6 +90,10 @@ Clauses(in, out) ==
                /\ (Cool(in).has /\ ~IsZero(cw) /\ Eq(T, Cool(in).asym)) =>
                      /\ Le(R(out.rows[i].fl), Mul(Add(in.c, Mul(Mul(Cool(in).beta, cw), Q(1000, 2718))), R(S)))
                      /\ Le(Mul(Add(in.c, Mul(Mul(Cool(in).beta, cw), Q(1000, 2719))), R(S)), R(out.rows[i].ce))>>,
+     \* C01 on constructed documents: written with to_json and read back, the model predicts the same bytes and re-serialises to the same document
+     <<"StoredAgainItLoads", ok => out.rt.ok>>,
+     <<"StoredAgainItPredictsTheSame", (ok /\ out.rt.ok) => out.rt.predSame>>,
+     <<"StoredAgainItIsTheSameDocument", (ok /\ out.rt.ok) => out.rt.docSame>>,
      <<"LoadsNonNegativeExclusiveAndAdditive", ok => \A i \in 1..n : out.rows[i].loadsOk>>,
      <<"LoadOnTheRightSide", ok => \A i \in 1..n :
             /\ (Region(in, in.probes[i]) = "heat" => out.rows[i].heatOnly)
